@@ -878,7 +878,7 @@ func suffixOf(got []cdrContainer, all []ContainerRec, n int) string {
 
 // ---------------------------------------------------------------- C12
 
-func CheckC12(h *History) []Violation {
+func CheckC12(h *History) (out []Violation) {
 	var v vio
 	if h.Scenario.Cfg.Concurrent {
 		won, releases := map[string]int{}, map[string]int{}
@@ -914,6 +914,58 @@ func CheckC12(h *History) []Violation {
 	}
 	notify := map[string]string{} // supi -> registered notify URI
 	known := map[string]bool{}
+	type owedNotif struct {
+		op   *OpResult
+		url  string
+		rg   int32
+		done bool
+	}
+	var owed []*owedNotif
+	defer func() {
+		if len(v.list) > 0 {
+			return
+		}
+		defer func() { out = v.list }()
+		// Every notification the SMF side received is the one owed for a recharge that had started
+		// by then (same endpoint, that rating group and no other), and every recharge got its one.
+		for _, n := range h.Notifs {
+			var hit *owedNotif
+			var near *owedNotif
+			for _, w := range owed {
+				if w.done || w.op.StartNs > n.At {
+					continue
+				}
+				if near == nil {
+					near = w
+				}
+				if n.Method == "POST" && n.URL == w.url && len(n.RGs) == 1 && n.RGs[0] == w.rg {
+					hit = w
+					break
+				}
+			}
+			switch {
+			case hit != nil:
+				hit.done = true
+			case near != nil && (n.Method != "POST" || n.URL != near.url):
+				near.done = true
+				v.add("C12", "notification-target", "", near.op.Op.ID, "recharge op %d notified %s %s, the consumer registered %s", near.op.Op.ID, n.Method, n.URL, near.url)
+			case near != nil:
+				near.done = true
+				v.add("C12", "notification-content", "", near.op.Op.ID, "recharge op %d for rating group %d notified groups %v", near.op.Op.ID, near.rg, n.RGs)
+			default:
+				v.add("C12", "notification-count", "unexpected", -1, "a notification (%s %s, groups %v at %d ns) corresponds to no recharge of a known subscriber: every recharge already has its one notification, or none had started", n.Method, n.URL, n.RGs, n.At)
+			}
+			if len(v.list) > 0 {
+				return
+			}
+		}
+		for _, w := range owed {
+			if !w.done {
+				v.add("C12", "notification-count", "n=0", w.op.Op.ID, "recharge op %d (rating group %d, registered endpoint %s) was answered 204 but no notification for it ever reached the endpoint", w.op.Op.ID, w.rg, w.url)
+				return
+			}
+		}
+	}()
 	for _, o := range h.Ops {
 		if !o.Done || o.Skipped != "" {
 			continue
@@ -988,35 +1040,16 @@ func CheckC12(h *History) []Violation {
 					"%s op %d names %s, was answered %d, but changed state:\n%s", op.Kind, op.ID, refClass(op, known), o.Status, snapDiff(o.PreSnap, o.PostSnap))
 				return v.list
 			}
-			if o.PostNotifs != o.PreNotifs {
-				v.add("C12", "rejection-notification", "", op.ID, "rejected op %d sent a notification", op.ID)
-				return v.list
-			}
 		case "recharge":
-			got := h.Notifs[min(o.PreNotifs, len(h.Notifs)):min(o.PostNotifs, len(h.Notifs))]
 			if known[op.Supi] {
 				if o.Status != 204 {
 					v.add("C12", "status", "op=recharge", op.ID, "recharge op %d for a known subscriber answered %d, expected 204", op.ID, o.Status)
 					return v.list
 				}
-				if len(got) != 1 {
-					v.add("C12", "notification-count", fmt.Sprintf("n=%d", len(got)), op.ID, "recharge op %d sent %d notifications, expected exactly 1", op.ID, len(got))
-					return v.list
-				}
-				n := got[0]
-				if n.Method != "POST" || n.URL != notify[op.Supi] {
-					v.add("C12", "notification-target", "", op.ID, "recharge op %d notified %s %s, the consumer registered %s", op.ID, n.Method, n.URL, notify[op.Supi])
-					return v.list
-				}
-				if len(n.RGs) != 1 || n.RGs[0] != op.RG {
-					v.add("C12", "notification-content", "", op.ID, "recharge op %d for rating group %d notified groups %v", op.ID, op.RG, n.RGs)
-					return v.list
-				}
+				// exactly one notification is owed for this recharge (matched below: the statement
+				// does not say that it has been sent by the time the 204 is produced)
+				owed = append(owed, &owedNotif{op: o, url: notify[op.Supi], rg: op.RG})
 			} else {
-				if len(got) != 0 {
-					v.add("C12", "notification-count", "unknown-subscriber", op.ID, "recharge op %d for an unknown subscriber sent %d notifications", op.ID, len(got))
-					return v.list
-				}
 				if o.PreSnap != o.PostSnap && o.Op.TopUp == 0 {
 					v.add("C12", "rejection-effect", "op=recharge", op.ID, "recharge for unknown subscriber changed state:\n%s", snapDiff(o.PreSnap, o.PostSnap))
 					return v.list
